@@ -68,6 +68,7 @@ def generate(rng, tier, idx):
                                        'IGNORE dir%d' % i, '-dash line is junk', 'DATA -dash%d 1' % i,
                                        'DATA sp\\x20ace%d 2 MD5 %032x' % (i, rng.getrandbits(60)),
                                        'TIMESTAMP 2020-03-01T00:00:00Z', '', 'DATA trailing%d 1   ' % i,
+                                       'DATA ' + '\U0001F600' * 2000 + '%d 3 SHA256 %064x' % (i, rng.getrandbits(60)),
                                        '-----BEGIN PGP SIGNATURE-----', 'DIST d%d.tar 9 SHA512 ab' % i]))
         faults = []
         for _ in range(rng.choice([0, 0, 1, 1, 2, 3])):
@@ -365,7 +366,10 @@ def apply_fault(lines, f, sc):
         body = [j for j, l in enumerate(lines) if l.startswith(('DATA ', 'IGNORE ', 'DIST ', '- DATA', 'TIMESTAMP '))]
         if body:
             j = body[a % len(body)]
-            pad = (19990, 19996, 20000, 20100, 40000, 65536)[b % 6]
+            pad = (19990, 19996, 20000, 20100, 40000, 65536, -16000, -16300)[b % 8]
+            if pad < 0:
+                # fill up to just under 16384 CHARACTERS: with multi-byte characters in the line that is far more bytes
+                pad = max(0, -pad - len(lines[j]) - 72)
             lines[j] = lines[j] + ' ' * pad + (' SHA256 ' + 'e' * 64 if lines[j].lstrip('- ').startswith(('DATA', 'DIST')) else ' extra-token')
     elif k == 'lead-blank':
         lines.insert(0, '')
